@@ -9,7 +9,7 @@ package poll
 // reported delivered exactly when that connection's channel accepted it; a notification is only delivered
 // to the connection with the addressed id; Done is called exactly once on every path.
 //@ func (*PollWorker).Process
-//@ props C18 C08
+//@ props C18 C08 C19
 //@ nopanic C13 C18
 //@ use-contracts get
 //@ funcvalue ^mesg\.Done$ records done
@@ -111,6 +111,10 @@ package poll
 //@ abstract-calls .*
 //@ requires h != nil && h.config != nil && r != nil && r.URL != nil
 //@ site call Connect assert conn == caller_conn
+// group and id are taken from the decoded request path: /<group>/<id, slashes included> (C19: the id a worker
+// connects with is the id a poll://group/id address names)
+//@ site call Split assert [C18 C19 C20] s == r.URL.Path && sep == "/"
+//@ site call Join assert [C18 C19 C20] sep == "/"
 //@ site call Disconnect assert conn == caller_conn && calls("Connect") == 1 && callres("Connect", 0, 0)
 //@ site return assert calls("Connect") == 1 && callres("Connect", 0, 0) && ok ==> calls("Disconnect") == 1
 //@ site return assert calls("Disconnect") <= 1
